@@ -39,7 +39,7 @@ def jobs(tier):
     configs = [(False, "direct"), (True, "direct"), (False, "batch"), (True, "batch")]
     sym = hexstep.symval_jobs(tier, ["root"], seed, [False, True])
     if tier == "quick":
-        return hexstep.step_jobs(tier, ["root"], "K7", "V7", seed, configs, lambda mi, ci: mi % 4 == ci or (mi + 2) % 4 == ci) + sym[3::14]
+        return hexstep.step_jobs(tier, ["root"], "K7", "V7", seed, configs, lambda mi, ci: mi % 4 == ci or (mi + 2) % 4 == ci) + sym[3::19]
     return hexstep.step_jobs(tier, ["root"], "K10", "V12", seed, configs, lambda mi, ci: ci % 2 == mi % 2) + sym
 
 
